@@ -258,7 +258,7 @@ pub fn run(tier: Tier) -> i32 {
     cookie_headers.push(Some(format!("{DEFAULT_COOKIE}=de; custom=fr")));
     cookie_headers.push(Some(format!("custom=de; {DEFAULT_COOKIE}=fr")));
     cookie_headers.push(Some("other=fr".to_string()));
-    let accepts: Vec<Option<&'static str>> = vec![None, Some(""), Some("en"), Some("fr"), Some("de"), Some("it"), Some("it,fr"), Some("fr;q=0.1,de"), Some("garbage!!"), Some("de-DE,en"), Some("fr-CA,de;q=0.5"), Some("*"), Some("xx,yy,de"), Some("fr,en-US;q=0.8"), Some("en-US,fr"), Some("en-GB,fr"), Some("en,en-US"), Some("it,fr-CA;q=0.9,en-US;q=0.5"), Some("en-US-posix,de"), Some("pt-PT,pt-BR"), Some("pt-PT,pt-BR,de"), Some("pt,pt-BR;q=0.9"), Some("it,pt-PT,pt-BR"), Some("pt-BR-x-foo,pt-BR")];
+    let accepts: Vec<Option<&'static str>> = vec![None, Some(""), Some("en"), Some("fr"), Some("de"), Some("it"), Some("it,fr"), Some("fr;q=0.1,de"), Some("garbage!!"), Some("de-DE,en"), Some("fr-CA,de;q=0.5"), Some("*"), Some("xx,yy,de"), Some("fr,en-US;q=0.8"), Some("en-US,fr"), Some("en-GB,fr"), Some("en,en-US"), Some("it,fr-CA;q=0.9,en-US;q=0.5"), Some("en-US-posix,de"), Some("pt-PT,pt-BR"), Some("pt-PT,pt-BR,de"), Some("pt,pt-BR;q=0.9"), Some("it,pt-PT,pt-BR"), Some("pt-BR-x-foo,pt-BR"), Some("it,es,nl,sv,da,fi,nb,de"), Some("it,es,nl,sv,da,fi,nb,pl,pt-BR")];
     let mut envs: Vec<Env> = vec![];
     for ch in &cookie_headers {
         for a in &accepts {
